@@ -242,8 +242,19 @@ func prepareQuery(q *Query) {
 		}
 	}
 	if len(sks) == 0 {
+		// without skolem constants only small literal ranges are enumerated
+		var lits []*Term
+		for _, c := range cands[SInt] {
+			if c.Kind == KLit {
+				lits = append(lits, c)
+			}
+		}
 		cands = map[Sort][]*Term{}
+		if len(lits) > 0 {
+			cands[SInt] = lits
+		}
 	}
+	q.Goal = witnessExists(q.Goal, q.Hyps, sks)
 	var inst []*Term
 	for round := 0; round < 3; round++ {
 		arrIdx := map[string][]*Term{}
@@ -301,6 +312,11 @@ func collectBoundsIn(t *Term, out *[]*Term) {
 		if (t.Op == "<" || t.Op == "<=") && len(t.Args) == 2 && t.Args[0].Kind == KBound && !mentionsBound(t.Args[1], nil) {
 			if t.Args[1].Kind != KLit {
 				*out = append(*out, t.Args[1])
+			} else if n, ok := t.Args[1].IntVal(); ok && n.Sign() > 0 && n.Int64() <= 8 {
+				// a small literal range: enumerate it (t-1 is added by the caller)
+				for k := int64(1); k <= n.Int64(); k++ {
+					*out = append(*out, IntLit(k))
+				}
 			}
 		}
 		for _, a := range t.Args {
@@ -325,4 +341,151 @@ func collectDivs(t *Term, out *[]*Term, seen map[string]bool) {
 			collectDivs(a, out, seen)
 		}
 	}
+}
+
+// witnessExists weakens nothing: an existential goal "exists i. B(i)" is replaced by
+// "(exists i. B(i)) or B(c1) or ... or B(cn)" for candidate witnesses c (loop variables, skolems, small literals);
+// each B(c) implies the existential, so the new goal is equivalent, but the solver finds the witness at once.
+func witnessExists(goal *Term, hyps []*Term, sks []*Term) *Term {
+	if goal == nil {
+		return goal
+	}
+	var cands []*Term
+	seen := map[string]bool{}
+	add := func(t *Term) {
+		if len(cands) < 10 && !seen[t.String()] {
+			seen[t.String()] = true
+			cands = append(cands, t)
+		}
+	}
+	for _, sk := range sks {
+		if sk.Sort == SInt {
+			add(sk)
+		}
+	}
+	c := newSigCollector()
+	for _, h := range hyps {
+		c.walk(h)
+	}
+	for _, n := range sortedKeys(c.vars) {
+		if c.vars[n] == SInt && strings.HasPrefix(n, "loop") {
+			add(Var(n, SInt))
+			add(Add(Var(n, SInt), IntLit(1)))
+		}
+	}
+	add(IntLit(0))
+	var rec func(t *Term, pos bool) *Term
+	rec = func(t *Term, pos bool) *Term {
+		switch {
+		case t.Kind == KQuant && t.Op == "exists" && pos && len(t.Binders) == 1 && t.Binders[0].Sort == SInt:
+			ds := []*Term{t}
+			for _, cnd := range cands {
+				ds = append(ds, Subst(t.Args[0], map[string]*Term{t.Binders[0].Op: cnd}))
+			}
+			return Or(ds...)
+		case t.Kind == KApp && t.Op == "and":
+			var cs []*Term
+			for _, a := range t.Args {
+				cs = append(cs, rec(a, pos))
+			}
+			return And(cs...)
+		case t.Kind == KApp && t.Op == "or":
+			var cs []*Term
+			for _, a := range t.Args {
+				cs = append(cs, rec(a, pos))
+			}
+			return Or(cs...)
+		case t.Kind == KApp && t.Op == "=>":
+			return Implies(t.Args[0], rec(t.Args[1], pos))
+		}
+		return t
+	}
+	return rec(goal, true)
+}
+
+// expandSmallRanges rewrites quantifiers over a small literal integer range
+//   exists i. 0 <= i && i < N && B(i)      /     forall i. (0 <= i && i < N) ==> B(i)        (N a literal <= 8)
+// into the finite disjunction / conjunction of their instances. Equivalent, and quantifier-free.
+func expandSmallRanges(t *Term) *Term {
+	switch t.Kind {
+	case KApp:
+		changed := false
+		args := make([]*Term, len(t.Args))
+		for i, a := range t.Args {
+			args[i] = expandSmallRanges(a)
+			if args[i] != a {
+				changed = true
+			}
+		}
+		if changed {
+			return rebuild(t, args)
+		}
+		return t
+	case KQuant:
+		if len(t.Binders) != 1 || t.Binders[0].Sort != SInt {
+			return t
+		}
+		v := t.Binders[0].Op
+		body := t.Args[0]
+		var guard []*Term
+		var rest *Term
+		if t.Op == "exists" && body.Kind == KApp && body.Op == "and" {
+			guard = body.Args
+		} else if t.Op == "forall" && body.Kind == KApp && body.Op == "=>" {
+			g := body.Args[0]
+			if g.Kind == KApp && g.Op == "and" {
+				guard = g.Args
+			} else {
+				guard = []*Term{g}
+			}
+			rest = body.Args[1]
+		} else {
+			return t
+		}
+		lo, hi := int64(-1), int64(-1)
+		var others []*Term
+		for _, g := range guard {
+			if g.Kind == KApp && len(g.Args) == 2 {
+				a, b := g.Args[0], g.Args[1]
+				if g.Op == "<=" && b.Kind == KBound && b.Op == v {
+					if n, ok := a.IntVal(); ok && lo < 0 {
+						lo = n.Int64()
+						continue
+					}
+				}
+				if g.Op == "<" && a.Kind == KBound && a.Op == v {
+					if n, ok := b.IntVal(); ok && hi < 0 {
+						hi = n.Int64()
+						continue
+					}
+				}
+			}
+			others = append(others, g)
+		}
+		if lo < 0 || hi < 0 || hi-lo > 8 {
+			return t
+		}
+		var insts []*Term
+		for k := lo; k < hi; k++ {
+			m := map[string]*Term{v: IntLit(k)}
+			if t.Op == "exists" {
+				var cs []*Term
+				for _, o := range others {
+					cs = append(cs, Subst(o, m))
+				}
+				insts = append(insts, expandSmallRanges(And(cs...)))
+			} else {
+				var cs []*Term
+				for _, o := range others {
+					cs = append(cs, Subst(o, m))
+				}
+				insts = append(insts, expandSmallRanges(Implies(And(cs...), Subst(rest, m))))
+			}
+		}
+		if t.Op == "exists" {
+			return Or(insts...)
+		}
+		return And(insts...)
+	}
+	return t
 }
